@@ -22,6 +22,7 @@ import (
 	"strings"
 	"testing"
 	"time"
+	"unicode/utf8"
 )
 
 type c10Op struct {
@@ -230,6 +231,10 @@ func c10OpsFor(seed uint64, j int, m *c10Man) []c10Op {
 	}
 	a1, b1 := pick()
 	a2, b2 := pick()
+	if len(m.Bases) > 0 {
+		// extract the directory whose name is a proper prefix (without slash) of a sibling's name
+		a1 = m.Bases[r.Intn(len(m.Bases))]
+	}
 	var a3, b3 string
 	if r.Bool() {
 		a3, b3 = c10NoisyPaths[r.Intn(len(c10NoisyPaths))], c10Relocs[r.Intn(len(c10Relocs))]
@@ -359,6 +364,7 @@ type c10PyCase struct {
 	Blocks [][]string `json:"blocks"` // [locator, size]
 	Toks   [][]string `json:"toks"`   // [pos, len, hex name]
 	Names  []string   `json:"names"`  // hex, for escape()
+	UTF8   bool       `json:"utf8"`   // names are decoded as UTF-8 (unicode strings, as SDK callers pass them) instead of latin-1
 }
 type c10PyRes struct {
 	Segs [][][]string `json:"segs"` // per token: list of [locator, block_size, segment_offset, segment_size]; null = exception
@@ -381,6 +387,7 @@ func TestVerifC10PY(t *testing.T) {
 		st   c10Stream
 		tags []string
 		esc  []string
+		utf8 bool
 	}
 	var items []item
 	if exh {
@@ -389,7 +396,7 @@ func TestVerifC10PY(t *testing.T) {
 				continue
 			}
 			m := c10ExhManifest(e)
-			items = append(items, item{i, m.Streams[0], m.Tags, nil})
+			items = append(items, item{i, m.Streams[0], m.Tags, nil, false})
 		}
 	} else {
 		// n counts manifests; each stream of a valid manifest is one case (index = 4*j + stream number);
@@ -422,13 +429,28 @@ func TestVerifC10PY(t *testing.T) {
 					}
 					tags = append(tags, "out-of-range-token")
 				}
-				items = append(items, item{idx, st, tags, esc})
+				// when every name is valid UTF-8, hand them to Python as unicode text half of the time
+				u8 := utf8.ValidString(st.Name)
+				for _, tk := range st.Toks {
+					u8 = u8 && utf8.ValidString(tk.Name)
+				}
+				for _, e := range esc {
+					u8 = u8 && utf8.ValidString(e)
+				}
+				u8 = u8 && r.Bool()
+				if u8 {
+					tags = append(tags, "names-as-utf8")
+				} else {
+					tags = append(tags, "names-as-latin1")
+				}
+				items = append(items, item{idx, st, tags, esc, u8})
 			}
 		}
 	}
 	var in bytes.Buffer
 	for _, it := range items {
 		pc := c10PyCase{Name: hx(it.st.Name)}
+		pc.UTF8 = it.utf8
 		for b, loc := range it.st.Blocks {
 			pc.Blocks = append(pc.Blocks, []string{loc, fmt.Sprint(it.st.Sizes[b])})
 		}
